@@ -698,13 +698,13 @@ func (g *gen) funcParts(d int, fc *fctx, nStmts int, exprBody bool) (params stri
 	}
 	if g.level >= 2015 && !fc.strictDirective() {
 		switch r.Intn(8) {
-		case 0: // default value (pure unless -known: unused trailing parameters are dropped, N02)
+		case 0: // default value, also with side effects (N02, repaired: such a parameter stays)
 			p := g.fresh("p")
 			def := r.Pick("1", "\"d\"", "g0", "e", "t", "null", "void 0", "[]", "{}", "-1", "!0")
 			if len(ps) > 0 && r.Bool() {
 				def = ps[0]
 			}
-			if g.known && r.Bool() {
+			if r.Chance(1, 3) {
 				def = g.hostCall(1).s
 			}
 			g.declare(&variable{name: p, k: kAny, mut: true, decl: "param"})
